@@ -328,6 +328,16 @@ class ZipfRules:
                     while isinstance(lo_final, tuple) and lo_final and lo_final[0] in ('ext', 'trunc', 'cvt'):
                         lo_final = lo_final[1]
                     same = lo_final is not None and (pos == lo_final or (is_const(pos) and is_const(lo_final) and pos[1] == lo_final[1]))
+                    if not same and lo_final is not None:
+                        from pathsim import mk_op
+                        plus1 = mk_op('+', lo_final, C(1, 64), 64)
+                        if pos == plus1 or (is_const(pos) and is_const(plus1) and pos[1] == plus1[1]):
+                            # the final "u > CDF(lower) => lower + 1" correction applied to the returned value instead of the cursor
+                            for e in p.events:
+                                v = e.get('value') if e['kind'] == 'cond' else None
+                                if isinstance(v, tuple) and v and v[0] == 'op' and v[1] == '>' and e['outcome'] is True and \
+                                        any(x == lo_final or (is_const(x) and is_const(lo_final) and x[1] == lo_final[1]) for x in [self.unext(y) for y in self.walk_args(v[3])]):
+                                    same = True
                     self.sink.emit('C06.RANGE', 'ok' if same else 'violated', '%s::operator() returns the position the bounded search ended on' % sn, self.loc(op, p.ret_line),
                                    'position %s' % norm(pos)[:70] if same else
                                    'the returned position %s is not the final lower cursor of the search over [0, bins - 1] (%s): its range is not established by the search' % (norm(pos)[:70], norm(lo_final)[:40]))
@@ -444,6 +454,26 @@ class ZipfRules:
                 return lo, hi
         return None
 
+    def walk_args(self, v):
+        out = []
+        if isinstance(v, tuple):
+            out.append(v)
+            for x in v:
+                if isinstance(x, tuple):
+                    out.extend(self.walk_args(x))
+        return out
+
+    def returned_position(self, p, rec):
+        """the position operand of `min_ + position` returned on this path (conversions stripped), or None"""
+        r_ = p.ret
+        if not (isinstance(r_, tuple) and r_ and r_[0] == 'op' and r_[1] == '+'):
+            return None
+        a, b = self.unext(r_[2]), self.unext(r_[3])
+        pos = b if (isinstance(a, tuple) and a and a[0] == 's' and a[1] == 'this->min_') else a if (isinstance(b, tuple) and b and b[0] == 's' and b[1] == 'this->min_') else None
+        while isinstance(pos, tuple) and pos and pos[0] in ('ext', 'trunc', 'cvt'):
+            pos = pos[1]
+        return pos
+
     def search_bounds(self, op, rec, approx, tobj):
         """the search starts on [0, bins - 1]: lower cursor 0, upper cursor = (bin count) - 1 with the bin count being n_
         (approximate class) or the size of the table (exact class); judged on the values the cursors are declared with"""
@@ -515,32 +545,42 @@ class ZipfRules:
                     inside = i < last_head or any(x['kind'] == 'loop_head' for x in evs[k:k + 1])
                     post = i > last_head and dec.keys() == {'>'} and not any(x['kind'] == 'loop_head' for x in evs[i:])
                     is_loop_probe = '<' in dec
-                    Pm1 = ('op', '-', P, C(1, 64), 64)
-                    Pp1 = ('op', '+', P, C(1, 64), 64)
+                    from pathsim import mk_op as _mk
+                    Pm1 = _mk('-', P, C(1, 64), 64)
+                    Pp1 = _mk('+', P, C(1, 64), 64)
+
+                    def same_v(a, b):
+                        return a == b or (is_const(a) and is_const(b) and a[1] == b[1])
                     if is_loop_probe:
                         if dec.get('<') is True:
                             seen['lt'] += 1
-                            okk = len(asg) == 1 and asg[0]['path'][2] == hi and asg[0]['value'] in (Pm1, P)
+                            okk = len(asg) == 1 and asg[0]['path'][2] == hi and (same_v(asg[0]['value'], Pm1) or same_v(asg[0]['value'], P))
                             if not okk:
                                 bad.append(('u < CDF(P): the upper cursor must become P-1 (or P) and the lower cursor must not move', e, asg))
                         elif dec.get('>') is True:
                             seen['gt'] += 1
-                            okk = len(asg) == 1 and asg[0]['path'][2] == lo and asg[0]['value'] == Pp1
+                            okk = len(asg) == 1 and asg[0]['path'][2] == lo and same_v(asg[0]['value'], Pp1)
                             if not okk:
                                 bad.append(('u > CDF(P): the lower cursor must become P+1 and the upper cursor must not move', e, asg))
                         elif dec.get('>') is False:
                             seen['eq'] += 1
                             leaves = not any(x['kind'] == 'loop_head' for x in evs[k:])
-                            okk = len(asg) == 1 and asg[0]['path'][2] == lo and asg[0]['value'] == P and leaves
+                            lo_asg = [a for a in asg if a['path'][2] == lo]
+                            hi_asg = [a for a in asg if a['path'][2] == hi]
+                            # the lower cursor becomes P and the search stops: by leaving the loop, or by closing the interval (upper = P)
+                            closes = len(hi_asg) == 1 and same_v(hi_asg[0]['value'], P)
+                            okk = len(lo_asg) == 1 and same_v(lo_asg[0]['value'], P) and ((leaves and not hi_asg) or closes)
                             if not okk:
                                 bad.append(('u == CDF(P): the lower cursor must become P and the search must stop', e, asg))
                     elif '>' in dec and i > last_head:
                         # post-loop correction on CDF(lower)
                         seen['post'] += 1
+                        rpos = self.returned_position(p, rec)
                         if dec['>']:
-                            okk = len(asg) == 1 and asg[0]['path'][2] == lo and (asg[0].get('how') == '++' or asg[0]['value'] == Pp1)
+                            okk = (len(asg) == 1 and asg[0]['path'][2] == lo and (asg[0].get('how') == '++' or same_v(asg[0]['value'], Pp1))) or \
+                                (not asg and rpos is not None and same_v(rpos, Pp1))      # the correction is applied to the value returned
                         else:
-                            okk = not asg
+                            okk = not asg and (rpos is None or same_v(rpos, P) or not (isinstance(rpos, tuple) and rpos[0] == 'op'))
                         if not okk:
                             bad.append(('after the loop: u > CDF(lower) => lower+1, otherwise unchanged', e, asg))
                     i = k
